@@ -1,11 +1,16 @@
 // C10 correspondence harness: three-way differential on generated (Go type, bytes):
-//   fork model      vs  asn1.Unmarshal / UnmarshalWithParams(...,"lax")     (CUnm Fork ...)
-//   upstream model  vs  encoding/asn1.Unmarshal                             (CUnm Upstream ...)
-//   fork vs encoding/asn1 directly                                          (direct oracle)
+//
+//	fork model      vs  asn1.Unmarshal / UnmarshalWithParams(...,"lax")     (CUnm Fork ...)
+//	upstream model  vs  encoding/asn1.Unmarshal                             (CUnm Upstream ...)
+//	fork vs encoding/asn1 directly                                          (direct oracle)
+//
 // plus Marshal of generated values in both packages (CMar ...) and marshal(unmarshal(DER)) = DER.
 // Types are built at run time with reflect.StructOf, in parallel for the two packages; DER is
-// produced by Marshal of generated values and then mutated one edit at a time, so that the
-// direct oracles know which class of malformation an input carries.
+// produced by Marshal of generated values and then mutated one edit at a time.  The direct oracles
+// state the property on every input: strict fork = encoding/asn1 (accept/reject, value, remainder) unless
+// D2 / D3 is located in the bytes the accepting decoder consumed; lax = strict whenever strict accepts,
+// and lax accepts more only where a documented malformation is located.  The edit class can only
+// withdraw an excuse (after an edit that introduces no difference none is granted), never grant one.
 package main
 
 import (
@@ -17,6 +22,7 @@ import (
 	"reflect"
 	"runtime"
 	"runtime/debug"
+	"sort"
 	"strings"
 	"syscall"
 	"time"
@@ -290,8 +296,13 @@ func mutate(g *asn1gen.Gen, der []byte) []mutant {
 	}
 	prim := func(n *node) bool { return n.children == nil }
 	for _, m := range []string{"len-nonmin", "len-weird", "int-nonmin", "empty", "string-byte", "tag-nonmin", "D2-tag", "D2-oid",
-		"D3", "time", "bool", "bitpad", "tagbits", "struct-edit", "len-off"} {
-		if r.Intn(3) != 0 {
+		"D3", "time", "bool", "bitpad", "tagbits", "struct-edit", "len-off", "explicit-prim", "implicit-cons"} {
+		if m == "explicit-prim" {
+			// wanted often: it needs a tagged constructed element to apply at all
+			if r.Intn(3) == 0 {
+				continue
+			}
+		} else if r.Intn(3) != 0 {
 			continue
 		}
 		roots, ok := parseNodes(der, 0)
@@ -346,7 +357,9 @@ func mutate(g *asn1gen.Gen, der []byte) []mutant {
 			}
 			n.content = []byte{}
 		case "string-byte":
-			n := pickFrom(all, func(n *node) bool { return prim(n) && len(n.content) > 0 && n.tag[0]&0xc0 == 0 && isStringTag(n.tag[0]&0x1f) })
+			n := pickFrom(all, func(n *node) bool {
+				return prim(n) && len(n.content) > 0 && n.tag[0]&0xc0 == 0 && isStringTag(n.tag[0]&0x1f)
+			})
 			if n == nil {
 				n = pickFrom(all, func(n *node) bool { return prim(n) && len(n.content) > 0 && n.tag[0]&0xc0 != 0 })
 				m = "bytepoke"
@@ -451,6 +464,21 @@ func mutate(g *asn1gen.Gen, der []byte) []mutant {
 			case 2:
 				any.tag[0] = any.tag[0]&0xe0 | byte(r.Intn(31))
 			}
+		case "explicit-prim":
+			// the wrapper of an EXPLICIT [n] field (or an implicitly tagged SEQUENCE / SET) with the
+			// constructed bit cleared; the content stays the well-formed inner element(s)
+			n := pickFrom(all, func(n *node) bool { return n.tag[0]&0xc0 != 0 && n.tag[0]&0x20 != 0 && len(n.children) > 0 })
+			if n == nil {
+				continue
+			}
+			n.tag[0] &^= 0x20
+		case "implicit-cons":
+			// the converse: a primitive context / application / private element with the constructed bit set
+			n := pickFrom(all, func(n *node) bool { return n.tag[0]&0xc0 != 0 && n.tag[0]&0x20 == 0 })
+			if n == nil {
+				continue
+			}
+			n.tag[0] |= 0x20
 		case "struct-edit":
 			par := pickFrom(all, func(n *node) bool { return len(n.children) > 0 })
 			if par == nil {
@@ -563,6 +591,50 @@ func diffAll(der []byte) []mutant {
 	return out
 }
 
+// explicitPrimAll clears the constructed bit of tagged (context / application / private) constructed
+// elements: of all of them at once, and of each one alone.  For an EXPLICIT [n] field this yields
+// a primitive [n] element whose content octets are the well-formed inner element: not the wrapper
+// of the field (an error if the field is required, "absent" if it is OPTIONAL / has a DEFAULT).
+func explicitPrimAll(der []byte) []mutant {
+	var out []mutant
+	count := func() int {
+		roots, ok := parseNodes(der, 0)
+		if !ok {
+			return 0
+		}
+		var all []*node
+		flatten(roots, &all)
+		k := 0
+		for _, n := range all {
+			if n.tag[0]&0xc0 != 0 && n.tag[0]&0x20 != 0 && len(n.children) > 0 {
+				k++
+			}
+		}
+		return k
+	}()
+	for which := -1; which < count && which < 4; which++ {
+		if which == 0 && count == 1 {
+			break // same as "all"
+		}
+		roots, _ := parseNodes(der, 0)
+		var all []*node
+		flatten(roots, &all)
+		k := 0
+		for _, n := range all {
+			if n.tag[0]&0xc0 != 0 && n.tag[0]&0x20 != 0 && len(n.children) > 0 {
+				if which < 0 || which == k {
+					n.tag[0] &^= 0x20
+				}
+				k++
+			}
+		}
+		if k > 0 {
+			out = append(out, mutant{serialize(roots), "explicit-prim"})
+		}
+	}
+	return out
+}
+
 // focusedTypes: each relaxable leaf kind at each structural position (top level, struct field,
 // nested struct, sequence element, sequence of structs, struct holding a sequence, SET OF,
 // explicitly tagged field, field tagged lax inside a strict parent).
@@ -588,6 +660,30 @@ func focusedTypes() []*asn1gen.Ty {
 	out = append(out, st("generalized", tm()), sq(st("generalized", tm())), st("", st("generalized,optional", tm())), st("generalized,explicit,tag:2", tm()),
 		st("tag:31", &asn1gen.Ty{Kind: "int"}), st("tag:128,explicit", &asn1gen.Ty{Kind: "oid"}), sq(st("tag:16384", &asn1gen.Ty{Kind: "string"})),
 		st("application,tag:2097152", st("tag:31,optional", &asn1gen.Ty{Kind: "bool"})), st("", &asn1gen.Ty{Kind: "any"}))
+	// explicitly tagged fields: required / OPTIONAL / DEFAULT, of each class, alone, followed by another
+	// field, and next to an implicitly tagged alternative with the same tag number
+	st2 := func(tag string, t *asn1gen.Ty, tag2 string, t2 *asn1gen.Ty) *asn1gen.Ty {
+		return &asn1gen.Ty{Kind: "struct", Fields: []asn1gen.Field{{Tag: tag, T: t}, {Tag: tag2, T: t2}}}
+	}
+	lf := func(k string) *asn1gen.Ty { return &asn1gen.Ty{Kind: k} }
+	for _, k := range []string{"int", "octets", "string", "bool", "seqof", "struct"} {
+		mk := func() *asn1gen.Ty {
+			switch k {
+			case "seqof":
+				return sq(lf("int"))
+			case "struct":
+				return st("", lf("int"))
+			}
+			return lf(k)
+		}
+		out = append(out, st("explicit,tag:0", mk()), st("explicit,optional,tag:0", mk()), st2("explicit,optional,tag:0", mk(), "", lf("int")),
+			st("explicit,application,tag:1", mk()), st2("explicit,optional,private,tag:2", mk(), "optional", lf("bool")))
+	}
+	out = append(out, st("explicit,optional,default:7,tag:0", lf("int")), st2("explicit,optional,default:7,tag:3", lf("int"), "", lf("octets")),
+		st("explicit,optional,default:1,tag:0,application", lf("enum")),
+		st2("explicit,optional,tag:0", lf("int"), "optional,tag:0", lf("octets")), st2("explicit,optional,tag:1", lf("octets"), "optional,tag:1", lf("string")),
+		st2("explicit,optional,tag:0", lf("oid"), "optional", lf("rawvalue")), st2("explicit,optional,tag:0", lf("int"), "optional", lf("any")),
+		sq(st("explicit,optional,tag:0", lf("int"))), st("explicit,tag:5", st("explicit,optional,tag:0", lf("int"))))
 	return out
 }
 
@@ -598,28 +694,159 @@ func laxDocumented(class string) bool {
 	return class == "int-nonmin" || class == "empty" || class == "string-byte" || strings.HasSuffix(class, "-all")
 }
 
-// loose scan used for unstructured edits (bit flips, random bytes): does the input contain
-// anything that could be one of the documented malformations?
-func looksLaxMalformed(in []byte) bool {
-	for i := 0; i+1 < len(in); i++ {
-		if in[i+1] == 0 { // some element of length zero (empty OID)
-			return true
-		}
-		if (in[i] == 0 && in[i+1]&0x80 == 0) || (in[i] == 0xff && in[i+1]&0x80 != 0) { // redundant leading octet
-			return true
+// ---- the documented exceptions, located in the input itself (whatever edit produced it)
+//
+// The property: for every input, the strict fork and encoding/asn1 agree on accept/reject, value and
+// remainder, unless the input falls under D2 or D3 of coq/ASN1/Differences.v; lax mode accepts more than
+// strict mode only for the three documented malformations.  "Falls under" is decided on the bytes: an
+// element carrying the difference must occur in the part of the input the accepting decoder consumed,
+// with an identifier that a field of the target type able to hold it can have.  These scans are written
+// from the ASN.1 / package documentation, not from the model.
+
+// consumed: the part of the input an accepting decoder has looked at.  With top-level parameters that
+// make the whole value OPTIONAL a decoder may read a header and then consume nothing.
+func consumed(in, rest []byte, top string) []byte {
+	if hasPart(top, "optional") {
+		return in
+	}
+	return in[:len(in)-len(rest)]
+}
+
+// headerAt reads an identifier and a definite length at in[i:], tolerating every non-minimal form.
+func headerAt(in []byte, i int) (class int, compound bool, tag int, cs, ce int, ok bool) {
+	if i >= len(in) {
+		return
+	}
+	b := in[i]
+	class, compound, tag = int(b>>6), b&0x20 != 0, int(b&0x1f)
+	i++
+	if tag == 0x1f {
+		tag = 0
+		for k := 0; ; k++ {
+			if i >= len(in) || k > 6 {
+				return
+			}
+			c := in[i]
+			i++
+			tag = (tag<<7 | int(c&0x7f)) & 0x7fffffff
+			if c&0x80 == 0 {
+				break
+			}
 		}
 	}
-	for _, b := range in { // an octet outside PrintableString
-		if b >= 0x80 || b < 0x20 || strings.IndexByte("!\"#$%;<>@[\\]^_`{|}~", b) >= 0 {
+	if i >= len(in) {
+		return
+	}
+	l := int(in[i])
+	i++
+	if l&0x80 != 0 {
+		n := l & 0x7f
+		if n == 0 || n > 4 || i+n > len(in) {
+			return
+		}
+		l = 0
+		for k := 0; k < n; k++ {
+			l = l<<8 | int(in[i+k])
+		}
+		i += n
+	}
+	if l < 0 || i+l > len(in) {
+		return
+	}
+	return class, compound, tag, i, i + l, true
+}
+
+// elements calls f for every primitive element that can be read at some offset of in and whose
+// identifier is universal with one of the given tag numbers or, if implicit is set, of another class.
+func elements(in []byte, universal []int, implicit bool, f func(content []byte) bool) bool {
+	for i := range in {
+		class, compound, tag, cs, ce, ok := headerAt(in, i)
+		if !ok || compound {
+			continue
+		}
+		match := class != 0 && implicit
+		if class == 0 {
+			for _, u := range universal {
+				match = match || u == tag
+			}
+		}
+		if match && f(in[cs:ce]) {
 			return true
 		}
 	}
 	return false
 }
 
+func anyKind(kinds map[string]bool, ks ...string) bool {
+	for _, k := range ks {
+		if kinds[k] {
+			return true
+		}
+	}
+	return false
+}
+
+// D2: a base-128 number with a leading 0x80 octet, in a long-form tag number or in an OBJECT IDENTIFIER.
+func locatedD2(in []byte, kinds map[string]bool) bool {
+	for i := 0; i+1 < len(in); i++ {
+		if in[i]&0x1f == 0x1f && in[i+1] == 0x80 {
+			return true
+		}
+	}
+	if !anyKind(kinds, "oid", "any") {
+		return false
+	}
+	return elements(in, []int{6}, kinds["oid"], func(c []byte) bool {
+		for k, b := range c {
+			if b == 0x80 && (k == 0 || c[k-1]&0x80 == 0) {
+				return true
+			}
+		}
+		return false
+	})
+}
+
+// D3: a GeneralizedTime with fractional seconds.
+func locatedD3(in []byte, kinds map[string]bool) bool {
+	if !anyKind(kinds, "time", "any") {
+		return false
+	}
+	return elements(in, []int{24}, kinds["time"], func(c []byte) bool { return len(c) >= 16 && c[14] == '.' })
+}
+
+func printableByte(b byte) bool {
+	return 'a' <= b && b <= 'z' || 'A' <= b && b <= 'Z' || '0' <= b && b <= '9' || strings.IndexByte(" '()+,-./:=?*&", b) >= 0
+}
+
+// the documented malformations of lax mode: an INTEGER / ENUMERATED with a redundant leading octet, an
+// empty OBJECT IDENTIFIER, a PrintableString with an octet outside its alphabet
+func locatedLax(in []byte, kinds map[string]bool) bool {
+	if anyKind(kinds, "int", "int32", "int64", "bigint", "enum", "any") &&
+		elements(in, []int{2, 10}, anyKind(kinds, "int", "int32", "int64", "bigint", "enum"), func(c []byte) bool {
+			return len(c) >= 2 && (c[0] == 0 && c[1]&0x80 == 0 || c[0] == 0xff && c[1]&0x80 != 0)
+		}) {
+		return true
+	}
+	if anyKind(kinds, "oid", "any") && elements(in, []int{6}, kinds["oid"], func(c []byte) bool { return len(c) == 0 }) {
+		return true
+	}
+	return anyKind(kinds, "string", "any") && elements(in, []int{19}, kinds["string"], func(c []byte) bool {
+		for _, b := range c {
+			if !printableByte(b) {
+				return true
+			}
+		}
+		return false
+	})
+}
+
 func unstructured(class string) bool {
 	switch class {
 	case "bitflip", "bytepoke", "random", "truncate", "trailing", "struct-edit", "len-off", "tagbits", "base-not-strict":
+		return true
+	case "explicit-prim", "implicit-cons":
+		// these make a decoder read an element as (or no longer as) the content of another field: the
+		// bytes of an OCTET STRING may come to be read as an implicitly tagged PrintableString, etc.
 		return true
 	}
 	return false
@@ -646,6 +873,7 @@ func main() {
 
 	r := lib.Rand()
 	w := lib.NewWriter(header, 200)
+	defer w.Guard()
 	n := lib.Count(220, 4000)
 	g := &asn1gen.Gen{R: r}
 
@@ -690,6 +918,7 @@ func main() {
 		for k := range kinds {
 			ktags = append(ktags, "kind:"+k)
 		}
+		sort.Strings(ktags)
 		ktags = append(ktags, fmt.Sprintf("depth:%d", t.Depth()))
 
 		// ---- Marshal of a generated value, both packages
@@ -727,6 +956,7 @@ func main() {
 			if focused {
 				inputs = append(inputs, relaxAll(mf.out)...)
 				inputs = append(inputs, diffAll(mf.out)...)
+				inputs = append(inputs, explicitPrimAll(mf.out)...)
 			}
 			inputs = append(inputs, mutate(g, mf.out)...)
 		}
@@ -792,18 +1022,24 @@ func main() {
 						fail("lax mode does not reach a nested element")
 					}
 					if fl.class == "ok" && fs.class != "ok" {
-						if !(laxDocumented(in.class) || (unstructured(in.class) && looksLaxMalformed(in.bytes))) {
+						// only for an input in which one of the three documented malformations is located, and never
+						// after an edit known to introduce none
+						if !((laxDocumented(in.class) || unstructured(in.class)) && locatedLax(consumed(in.bytes, fl.rest, top), kinds)) {
 							fail("lax mode accepts an input that is not one of the documented malformations")
 						}
 					}
 				case 2: // strict fork versus encoding/asn1
 					if !same(fs, us) {
+						// accept/reject, value and remainder must agree for EVERY input, whatever its provenance,
+						// unless a documented difference is located in what the accepting decoder consumed; two
+						// accepted results that differ are never excused
 						excused := false
 						switch {
-						case fs.class == "ok" && us.class != "ok": // D2
-							excused = in.class == "D2-tag" || in.class == "D2-oid" || (unstructured(in.class) && bytes.IndexByte(in.bytes, 0x80) >= 0)
-						case fs.class != "ok" && us.class == "ok": // D3
-							excused = in.class == "D3" || (unstructured(in.class) && bytes.IndexByte(in.bytes, '.') >= 0)
+						case fs.class == "ok" && us.class == "syntax": // D2: encoding/asn1 refuses a base-128 number (SyntaxError)
+							excused = (in.class == "D2-tag" || in.class == "D2-oid" || unstructured(in.class)) &&
+								locatedD2(consumed(in.bytes, fs.rest, top), kinds)
+						case fs.class == "other" && us.class == "ok": // D3: the fork's time parsing refuses the fraction (not an asn1 error type)
+							excused = (in.class == "D3" || unstructured(in.class)) && locatedD3(consumed(in.bytes, us.rest, top), kinds)
 						}
 						if !excused {
 							fail("strict fork and encoding/asn1 disagree outside the documented differences")
